@@ -226,6 +226,7 @@ OpObs(r, val) ==
   IF Has(r, "res") THEN << O(Prop, "failed:" \o r.op, FALSE) >>
   ELSE << O("C03", "mv.graph:" \o kind, OpGraphOk(r) /\ GraphReduced(r.g)),
           O(Prop, "sem:" \o r.op, (\A i \in 1 .. Len(r.a) : r.a[i] \in Live) /\ Agrees(val, Expected(r))),
+          O("C06", "cache:" \o r.op, (\A i \in 1 .. Len(r.a) : r.a[i] \in Live) /\ Agrees(val, Expected(r))),
           O(Prop, "scalar:" \o r.op, ScOk(r)),
           O(Prop, "eval", r.vt = val),
           O("C01", "canon.op:" \o kind, \A s \in Live : (Val(s) = val) <=> (hs[s].e = r.e)),
@@ -244,7 +245,12 @@ TrAddVars ==
 TrReorder ==
   /\ Ev("reorder")
   /\ l2v' = Rec[l].l2v
-  /\ Step(<< O("C08", "mv.order", Rec[l].ok) >>)
+  /\ Step(<< O("C08", "mv.order", Rec[l].ok /\ Len(Rec[l].l2v) = n
+                                   /\ {Rec[l].l2v[i] : i \in 1 .. n} = 0 .. n-1
+                                   /\ (("req" \in DOMAIN Rec[l]) =>
+                                         \A i, j \in 1 .. Len(Rec[l].req) : i < j =>
+                                            (CHOOSE p \in 1 .. n : Rec[l].l2v[p] = Rec[l].req[i])
+                                            < (CHOOSE p \in 1 .. n : Rec[l].l2v[p] = Rec[l].req[j]))) >>)
   /\ UNCHANGED <<kind, n, hs>>
 TrOp ==
   /\ Ev("mop")
@@ -257,6 +263,21 @@ TrOp ==
                       ELSE hs[s]]
           /\ Step(OpObs(Rec[l], hs'[Rec[l].h].v))
   /\ UNCHANGED <<kind, n, l2v>>
+(* re-projection of a live handle (after reordering / gc): its stored graph
+   and eval must still denote the same value table; edges stay put *)
+CheckObs(r) ==
+  LET ok == OpGraphOk(r) /\ r.a \in Live
+      val == IF ok THEN EdgeSem(r) ELSE <<>>
+  IN << O("C08", "mv.stable:" \o kind, ok /\ val = Val(r.a) /\ r.e = hs[r.a].e),
+        O("C08", "mv.eval:" \o kind, ok => r.vt = Val(r.a)),
+        O("C08", "mv.wellformed:" \o kind, ok /\ GraphReduced(r.g)),
+        O("C08", "mv.nc:" \o kind, r.nc = Len(r.g) + Cardinality(
+              {c \in UNION {{r.g[i][2 + k] : k \in 1 .. Arity} : i \in 1 .. Len(r.g)} \cup {r.e} : "t" \in DOMAIN c})) >>
+TrCheck ==
+  /\ Ev("mcheck")
+  /\ Step(CheckObs(Rec[l]))
+  /\ UNCHANGED <<kind, n, l2v, hs>>
+
 TrCofNone ==
   /\ Ev("mcofnone")
   /\ Step(<< O(Prop, "cofnone", TopLevel(Val(Rec[l].a)) = 0) >>)
@@ -295,7 +316,7 @@ TrGc ==
   /\ UNCHANGED <<kind, n, l2v, hs>>
 
 TrInit == kind = "tdd" /\ n = 0 /\ l2v = <<>> /\ hs = NoHandles /\ l = 1 /\ nf = 0 /\ fl = <<>>
-TrNext == TrReset \/ TrAddVars \/ TrReorder \/ TrOp \/ TrCofNone \/ TrDrop \/ TrObs \/ TrGc
+TrNext == TrReset \/ TrAddVars \/ TrReorder \/ TrOp \/ TrCofNone \/ TrDrop \/ TrObs \/ TrGc \/ TrCheck
 TrSpec == TrInit /\ [][TrNext]_tvars
 Done == PrintT(<<"TRACE_DONE", TLCGet("stats").diameter - 1, Len(Rec)>>)
 =============================================================================
